@@ -349,11 +349,72 @@ def ack_correlation(chk: Check, repo: Repo) -> None:
         chk.ob("ack-correlation", owner.site(setnode.ast), ok, f"DeviceConfiguration: accepting an acknowledgement is control-dependent on `<ack>.{field} == self.device_configuration_request.{field}`; equalities on the path: {sorted(eqs)}", key=f"ack-correlation|DeviceConfiguration|{field}")
 
 
+def close_interrupts_the_ack_wait(chk: Check, repo: Repo) -> None:
+    """"closing the connection fails a pending request promptly": over UDP a request first awaits its acknowledgement
+    (up to the 10 s timeout) - not the answer future `_stop()` cancels.  The object awaited there has to be reachable
+    for the close path: stored in an attribute before the await, aborted by what `_stop()` runs, and abort() has to
+    release exactly the event request() waits on."""
+    DM = "xknx.io.device_management_connection"
+    sr = repo.func(DM, "UDPDeviceManagementConnection._send_request")
+    chk.unit(sr)
+    cfg = CFG(sr.node)
+    waits = [n for n in cfg.nodes if n.kind == "stmt" and n.ast is not None and any(isinstance(x, ast.Await) and isinstance(x.value, ast.Call) and isinstance(x.value.func, ast.Attribute) and x.value.func.attr == "request" and isinstance(x.value.func.value, ast.Name) for x in ast.walk(n.ast))]
+    if len(waits) != 1:
+        raise AnalysisError("UDP _send_request: expected one awaited <local>.request()")
+    w = waits[0]
+    local = next(x.value.func.value.id for x in ast.walk(w.ast) if isinstance(x, ast.Await) and isinstance(x.value, ast.Call) and isinstance(x.value.func, ast.Attribute) and x.value.func.attr == "request")
+    stores = [n for n in cfg.nodes if n.kind == "stmt" and isinstance(n.ast, ast.Assign) and isinstance(n.ast.value, ast.Name) and n.ast.value.id == local and len(n.ast.targets) == 1 and isinstance(n.ast.targets[0], ast.Attribute) and ast.unparse(n.ast.targets[0].value) == "self" and cfg.dominates(n.id, w.id)]
+    attrs = {n.ast.targets[0].attr for n in stores}
+    # what _stop() runs on a UDP connection
+    ucls = repo.cls(DM, "UDPDeviceManagementConnection")
+    stop = repo.lookup_method(ucls, "_stop")
+    seen, work, aborted = set(), [stop], set()
+    while work:
+        f = work.pop()
+        if f is None or f.ref in seen:
+            continue
+        seen.add(f.ref)
+        for c in calls(f.node):
+            n = call_name(c)
+            if n.startswith("self.") and n.endswith(".abort") and n.count(".") == 2:
+                aborted.add(n.split(".")[1])
+            elif n.startswith("self.") and n.count(".") == 1:
+                work.append(repo.lookup_method(ucls, n[5:]))
+    ok = bool(attrs & aborted)
+    chk.ob("close-interrupts-the-acknowledgement-wait", sr.site(w.ast), ok, f"UDP _send_request awaits `{local}.request()`; stored for the close path in {sorted(attrs) or 'no attribute'}; _stop() (via {sorted(x.split(':')[-1] for x in seen)}) aborts {sorted(aborted) or 'nothing'}" + ("" if ok else " - a request waiting for its acknowledgement outlives the connection for up to the acknowledgement timeout"), key="close|ack-wait")
+    ab = repo.func("xknx.io.request_response.request_response", "RequestResponse.abort") if repo.has_func("xknx.io.request_response.request_response", "RequestResponse.abort") else None
+    if ok:
+        rq = repo.func("xknx.io.request_response.request_response", "RequestResponse.request")
+        waited = {ast.unparse(x.value.func.value) for x in ast.walk(rq.node) if isinstance(x, ast.Await) and isinstance(x.value, ast.Call) and isinstance(x.value.func, ast.Attribute) and x.value.func.attr == "wait"}
+        sets = {ast.unparse(c.func.value) for c in calls(ab.node) if isinstance(c.func, ast.Attribute) and c.func.attr == "set"} if ab is not None else set()
+        chk.ob("close-interrupts-the-acknowledgement-wait", (ab or rq).site(), bool(waited) and waited <= sets, f"RequestResponse.abort() sets {sorted(sets)}; request() waits on {sorted(waited)}", key="close|abort-releases-the-wait")
+
+
+def design_gaps(chk: Check, repo: Repo) -> None:
+    """Two consequences of handing answers over through a one-shot future that is filled before the request's matcher
+    is consulted (recorded as known findings; the rules name the constructs, so a different violation still shows)."""
+    DM = "xknx.io.device_management_connection"
+    cr = repo.func(DM, "_DeviceManagementConnection._cemi_received")
+    chk.unit(cr)
+    cfg = CFG(cr.node)
+    sets = [n for n in cfg.nodes if n.kind == "stmt" and n.ast is not None and any(call_name(c) == "self._pending.set_result" for c in calls(n.ast))]
+    keeps = [n for n in cfg.nodes if n.kind == "stmt" and n.ast is not None and any(isinstance(c.func, ast.Attribute) and c.func.attr in ("append", "put_nowait", "appendleft") for c in calls(n.ast))]
+    # (a) a frame that arrives while the previous one has not been taken by the request task yet
+    chk.ob("answers-arriving-back-to-back-are-all-seen", cr.site(), bool(keeps) or not sets, "_cemi_received hands a frame over by completing the one-shot future `_pending`; " + ("frames arriving before the request task installs the next future are kept" if keeps else "a frame arriving before the request task has run again finds the future done and is dropped as unexpected - the matching answer behind a stale one in the same TCP segment is lost"), key="cemi-received|frame-dropped-between-answers")
+    # (b) the acknowledgement shortcut trusts that future
+    sr = repo.func(DM, "UDPDeviceManagementConnection._send_request")
+    uses_done = any(isinstance(n, ast.Assign) and any(isinstance(t, ast.Name) for t in n.targets) and "self._pending.done()" in ast.unparse(n.value) for n in walk_local(sr.node))
+    matcher_first = bool(sets) and any(n.kind == "test" and n.ast is not None and any(isinstance(c, ast.Call) and "match" in call_name(c) for c in ast.walk(n.ast)) and cfg.dominates(n.id, sets[0].id) for n in cfg.nodes)
+    chk.ob("acknowledgement-is-not-inferred-from-an-unmatched-answer", sr.site(), not uses_done or matcher_first, "UDP _send_request takes a completed `_pending` as proof that the server accepted the unacknowledged request" + ("; _cemi_received completes it only with frames the request's matcher accepts" if matcher_first else ", but _cemi_received completes it with any non-indication frame - the late answer to an earlier request stops the repetition of a lost one and advances the counter"), key="udp|ack-inferred-from-unmatched-answer")
+
+
 def run(chk: Check, repo: Repo) -> None:
     cemi_received(chk, repo)
     request(chk, repo)
     matchers(chk, repo)
     stop_and_udp(chk, repo)
     ack_correlation(chk, repo)
+    close_interrupts_the_ack_wait(chk, repo)
+    design_gaps(chk, repo)
     chk.rule("E7 tables of _cemi_received and _stop; abstract path enumeration of request() over answer/timeout/cancel scripts and of the UDP repetition loop (symbolic counter); E5 censuses of the pending slot and the request lock; structural matcher pairing")
     chk.assume("asyncio.Lock serialises requests; a retry of the very same request cannot be told from its predecessor (documented in the code)")
